@@ -22,6 +22,8 @@ CHECKS = {
          "block dims 1; invariance of the composite kernel is the textbook consequence (not decided)"),
  'C10': ("for Gaussian (cov = 1/s, prec = s; dims 2-4; symbolic mean) and GMRF (prec = d; bc zero/periodic/neumann x order 0-2) likelihoods with a Gamma(alpha, beta) hyper-prior, both interfaces: the (shape, scale) of the Gamma the sampler actually draws from (captured at numpy.random.gamma) satisfies target.logd(s1) - target.logd(s2) = (shape-1)(log s1 - log s2) - (s1-s2)/scale for ALL data, means, alpha, beta, s1, s2, where target is the posterior the sampler was given; unsupported dependences (1/s^2, 2s, s^2, sqrt(s) via sqrtprec, two occurrences, vector Gamma, non-Gamma prior, LMRF with non-reciprocal scale / non-zero location) are rejected before any draw; Direct's state is the target's own draw",
          "numpy's gamma generator taken by its documented density; regularized (implicit) Gaussians have no density and are outside the proportionality claim"),
+ 'C11': ("behavioural fingerprint (logd / gradient at symbolic probes for the admissible argument patterns, parameter names, conditioning variables, name, dim, accumulated constant) of conditional Gaussians (callable cov / model mean), GMRF, Lognormal, RegularizedGaussian, Gamma, the joints a-d and a linear model is proved unchanged, for ALL values, after every operation sequence of length <= 2 (quick) / 3 over {condition, logd, gradient, sample, to_likelihood, enable_FD on a derived copy, stacked view, factor conditioning}, after 50 re-conditionings (no constant accumulates), after a Gibbs run of either interface on a conditioned copy, and for siblings derived from one original; conditioned copies keep their original's name",
+         "sequences beyond 120 per object are sub-sampled with a fixed seed; fingerprints are finite sets of probes"),
  'C12': ("for matrix / callable-pair / Jacobian / gradient-callable models and every listed domain and range geometry: forward on a parameter vector, a CUQIarray in either representation, function values with is_par=False and Samples (2-3 columns) all equal range.fun2par(f(domain.par2fun(p))) for ALL p with the documented wrapping; gradient = J_F(p)^T direction (symbolic derivative incl. the geometry's own derivative) or refused exactly where it cannot be formed; model(dist) only renames the input",
          "dims <= 4; oracle composed from the geometry's own maps (their correctness is C13)"),
  'C13': ("for every listed geometry, size, number of modes/steps and projection: fun2par(par2fun(p)) = p, projection idempotent, maps act column-wise on 2-3 column batches, reported shapes equal produced shapes, Samples/CUQIarray conversions agree with per-sample maps and round-trip, StepExpansion nodes partitioned and mapped to the documented step, KL expansion equals the documented sine series - all for ALL parameter vectors / function values",
